@@ -1,9 +1,10 @@
 #!/bin/bash
 # usage: try_mutant.sh <patch.diff> <property...>   runs the checks against a scratch copy of /repo with the patch applied
 HERE=$(cd "$(dirname "$0")/.." && pwd)
-P=$1; shift
+P=$(readlink -f "$1"); shift
 D=/var/tmp/mutrepo.$$
-rsync -a --exclude target --exclude .git /repo/ $D/
+REPO=${VERIF_REPO:-/repo}
+rsync -a --exclude target --exclude .git $REPO/ $D/
 (cd $D && patch -p1 -s < $P) || { echo "patch failed"; rm -rf $D; exit 3; }
 for prop in "$@"; do
   out=$(cd $HERE && VERIF_REPO=$D VERIF_EVIDENCE_DIR=$D/.evidence VERIF_REPLAY_DIR=$HERE/replay ./check $prop 2>&1 | grep -E "^(VIOLATION|UNDECIDED|OK|KNOWN)" | head -3)
